@@ -18,52 +18,44 @@ def isNormalC : Comp → Bool
   | .normal _ => true
   | _ => false
 
-/-- shape of the buffer of `cleaned` on a relative path: at most one leading `..`, then names -/
+/-- shape of the buffer of `cleaned` on a relative path: some leading `..`, then names -/
 def relShape (st : List Comp) : Prop :=
-  (∀ c ∈ st, isNormalC c = true) ∨ ∃ t, st = Comp.parent :: t ∧ ∀ c ∈ t, isNormalC c = true
+  ∃ k t, st = List.replicate k Comp.parent ++ t ∧ ∀ c ∈ t, isNormalC c = true
 
 theorem cleanStep_relShape (st : List Comp) (c : Comp) (hc : c ≠ Comp.root) (h : relShape st) :
     relShape (cleanStep st c) := by
+  obtain ⟨k, t, rfl, ht⟩ := h
   cases c with
   | root => exact absurd rfl hc
-  | cur => exact h
+  | cur => exact ⟨k, t, rfl, ht⟩
   | normal x =>
-    rcases h with h | ⟨t, rfl, ht⟩
-    · left; intro d hd; simp [cleanStep] at hd; rcases hd with hd | rfl; exact h d hd; rfl
-    · right; refine ⟨t ++ [Comp.normal x], by simp [cleanStep], ?_⟩
-      intro d hd; simp at hd; rcases hd with hd | rfl; exact ht d hd; rfl
+    refine ⟨k, t ++ [Comp.normal x], by simp [cleanStep], ?_⟩
+    intro d hd; simp at hd; rcases hd with hd | rfl; exact ht d hd; rfl
   | parent =>
-    simp only [cleanStep]
-    split
-    · -- pop
-      rename_i hlen
-      have hpop : ∀ l : List Comp, (∀ c ∈ l, c ≠ Comp.root) → popStack l = l.dropLast := by
-        intro l hl
-        unfold popStack
-        cases hg : l.getLast? with
-        | none => rfl
-        | some c =>
-          have hm : c ∈ l := List.mem_of_getLast? hg
-          cases c with
-          | root => exact absurd rfl (hl _ hm)
-          | _ => rfl
-      rcases h with h | ⟨t, rfl, ht⟩
-      · rw [hpop st (fun c hc e => by subst e; simpa [isNormalC] using h _ hc)]
-        left; intro d hd; exact h d (List.dropLast_subset _ hd)
-      · rw [hpop _ (by
-          intro c hc e; subst e
-          simp at hc; simpa [isNormalC] using ht _ hc)]
-        cases t with
-        | nil => left; simp
-        | cons a t' =>
-          right; refine ⟨(a :: t').dropLast, by simp [List.dropLast], ?_⟩
-          intro d hd; exact ht d (List.dropLast_subset _ hd)
-    · rename_i hlen
-      have : st = [] := by cases st <;> simp_all
-      subst this
-      right; exact ⟨[], by simp, by simp⟩
+    rcases List.eq_nil_or_concat t with rfl | ⟨t', y, rfl⟩
+    · -- only leading ".." so far (or nothing): one more ".."
+      refine ⟨k + 1, [], ?_, by simp⟩
+      simp only [cleanStep, List.append_nil]
+      cases k with
+      | zero => simp
+      | succ n =>
+        have : (List.replicate (n + 1) Comp.parent).getLast? = some Comp.parent := by
+          rw [List.replicate_succ']; simp
+        rw [this]; simp [List.replicate_succ']
+    · simp only [List.concat_eq_append] at ht ⊢
+      have hy : isNormalC y = true := ht y (by simp)
+      cases y with
+      | normal z =>
+        refine ⟨k, t', ?_, fun d hd => ht d (by simp [hd])⟩
+        have : (List.replicate k Comp.parent ++ (t' ++ [Comp.normal z])).getLast? = some (Comp.normal z) := by
+          rw [← List.append_assoc]; simp
+        simp only [cleanStep, this]
+        rw [← List.append_assoc, List.dropLast_concat]
+      | root => simp [isNormalC] at hy
+      | cur => simp [isNormalC] at hy
+      | parent => simp [isNormalC] at hy
 
-/-- D8's acceptance test for an alias (repaired code): relative, and after cleaning neither empty nor
+/-- the acceptance test for an alias (repaired code): relative, and after cleaning neither empty nor
     beginning with `..` — then every component is a plain name, so the link stays inside OUT -/
 theorem alias_inside (comps : List Comp) (hrel : ∀ c ∈ comps, c ≠ Comp.root)
     (hhead : (comps.foldl cleanStep []).head? ≠ some Comp.parent) :
@@ -76,8 +68,9 @@ theorem alias_inside (comps : List Comp) (hrel : ∀ c ∈ comps, c ≠ Comp.roo
     | cons c cs ih =>
       intro st hcs h
       exact ih _ (fun d hd => hcs d (by simp [hd])) (cleanStep_relShape st c (hcs c (by simp)) h)
-  rcases hshape comps [] hrel (Or.inl (by simp)) with h | ⟨t, ht, _⟩
-  · exact h
-  · rw [ht] at hhead; simp at hhead
+  obtain ⟨k, t, he, ht⟩ := hshape comps [] hrel ⟨0, [], by simp, by simp⟩
+  cases k with
+  | zero => rw [he]; simpa using ht
+  | succ n => rw [he] at hhead; simp [List.replicate_succ] at hhead
 
 end Pth
